@@ -87,3 +87,165 @@ func init() {
 		},
 	})
 }
+
+// postProcessOutsWriters: the Metadata methods with which the post-processing
+// path (every function of martian/core/post_process.go) writes the `_outs`
+// record, in source order.  The atomicity of the rewrite (write a temp file,
+// then rename over `_outs`) is what keeps the record "valid JSON of the same
+// shape" under a crash or an I/O fault; it is a property of
+// `Metadata.WriteAtomic` only.
+func init() {
+	addFact(fact{
+		name:   "postProcessOutsWriters",
+		leanTy: "List String",
+		deflt:  `["WriteAtomic"]`,
+		extract: func(repo string) (string, interface{}, error) {
+			_, f, err := parseFile(repo, "martian/core/post_process.go")
+			if err != nil {
+				return "", nil, err
+			}
+			writers := map[string]bool{"Write": true, "WriteAtomic": true, "WriteRaw": true, "WriteRawBytes": true,
+				"_writeRawNoLock": true, "appendRaw": true}
+			var found []string
+			ast.Inspect(f, func(n ast.Node) bool {
+				call, ok := n.(*ast.CallExpr)
+				if !ok || len(call.Args) < 1 {
+					return true
+				}
+				sel, ok := call.Fun.(*ast.SelectorExpr)
+				if !ok || !writers[sel.Sel.Name] {
+					return true
+				}
+				if id, ok := call.Args[0].(*ast.Ident); ok && id.Name == "OutsFile" {
+					found = append(found, sel.Sel.Name)
+				}
+				return true
+			})
+			if len(found) == 0 {
+				return "", nil, fmt.Errorf("no write of OutsFile found in post_process.go")
+			}
+			return leanStrList(found), found, nil
+		},
+	})
+	// writeAtomicSteps: the file-system steps of writeAtomicAt
+	// (martian/core/write_atomic_linux.go) in order: the data goes to
+	// `<target>.tmp` (writeFileAt) and only then is renamed over the target.
+	addFact(fact{
+		name:   "writeAtomicSteps",
+		leanTy: "List String",
+		deflt:  `["writeFileAt:tmp", "renameat:tmp->target"]`,
+		extract: func(repo string) (string, interface{}, error) {
+			_, f, err := parseFile(repo, "martian/core/write_atomic_linux.go")
+			if err != nil {
+				return "", nil, err
+			}
+			fd := findFunc(f, "writeAtomicAt")
+			if fd == nil {
+				return "", nil, fmt.Errorf("writeAtomicAt not found")
+			}
+			tmpIsSuffix := false
+			var steps []string
+			ast.Inspect(fd.Body, func(n ast.Node) bool {
+				switch x := n.(type) {
+				case *ast.AssignStmt:
+					if len(x.Lhs) == 1 && len(x.Rhs) == 1 {
+						if id, ok := x.Lhs[0].(*ast.Ident); ok && id.Name == "tmp" {
+							if b, ok := x.Rhs[0].(*ast.BinaryExpr); ok {
+								if l, ok := b.X.(*ast.Ident); ok && l.Name == "target" {
+									if r, ok := b.Y.(*ast.BasicLit); ok && r.Value == `".tmp"` {
+										tmpIsSuffix = true
+									}
+								}
+							}
+						}
+					}
+				case *ast.CallExpr:
+					id, ok := x.Fun.(*ast.Ident)
+					if !ok {
+						return true
+					}
+					arg := func(i int) string {
+						if i < len(x.Args) {
+							if a, ok := x.Args[i].(*ast.Ident); ok {
+								return a.Name
+							}
+						}
+						return "?"
+					}
+					switch id.Name {
+					case "writeFileAt":
+						steps = append(steps, "writeFileAt:"+arg(1))
+					case "renameat":
+						steps = append(steps, "renameat:"+arg(1)+"->"+arg(2))
+					}
+				}
+				return true
+			})
+			if !tmpIsSuffix {
+				return "", nil, fmt.Errorf("writeAtomicAt: tmp := target + \".tmp\" not found")
+			}
+			return leanStrList(steps), steps, nil
+		},
+	})
+}
+
+// postProcessRecoversMoved: in moveOutFile, is the "recorded path does not
+// exist" branch (`os.IsNotExist(err)` after `os.Lstat(filePath)`) more than
+// "report null"?  true = it first tries to recover a file that an interrupted
+// earlier post-process already moved to outs/ (any call other than `w.Write`
+// in that branch); false = the branch only writes null.
+func init() {
+	addFact(fact{
+		name:   "postProcessRecoversMoved",
+		leanTy: "Bool",
+		deflt:  "true",
+		extract: func(repo string) (string, interface{}, error) {
+			_, f, err := parseFile(repo, "martian/core/post_process.go")
+			if err != nil {
+				return "", nil, err
+			}
+			fd := findFunc(f, "moveOutFile")
+			if fd == nil {
+				return "", nil, fmt.Errorf("moveOutFile not found")
+			}
+			var branch *ast.BlockStmt
+			ast.Inspect(fd.Body, func(n ast.Node) bool {
+				ifs, ok := n.(*ast.IfStmt)
+				if !ok || branch != nil {
+					return true
+				}
+				isNotExist := false
+				ast.Inspect(ifs.Cond, func(m ast.Node) bool {
+					if s, ok := m.(*ast.SelectorExpr); ok && s.Sel.Name == "IsNotExist" {
+						isNotExist = true
+					}
+					return true
+				})
+				if isNotExist {
+					branch = ifs.Body
+					return false
+				}
+				return true
+			})
+			if branch == nil {
+				return "", nil, fmt.Errorf("moveOutFile: os.IsNotExist branch not found")
+			}
+			other := false
+			ast.Inspect(branch, func(n ast.Node) bool {
+				if call, ok := n.(*ast.CallExpr); ok {
+					if s, ok := call.Fun.(*ast.SelectorExpr); ok {
+						if x, ok := s.X.(*ast.Ident); ok && x.Name == "w" {
+							return true
+						}
+					}
+					other = true
+				}
+				return true
+			})
+			if other {
+				return "true", true, nil
+			}
+			return "false", false, nil
+		},
+	})
+}
